@@ -478,7 +478,20 @@ def c03(run, args):
         c.tls = True
         return c
     beh = behaviours_from(run, tour, lambda i: [mkt], stores, "tour")
-    beh += behaviours_from(run, tourtls, lambda i: [mktls], stores, "tls")
+    # STARTTLS is behaviour the statement of C03 does not mention: its family is judged against the grown contract on its own,
+    # a departure is recorded as a note (evidence, NOTE line), not as a violation of C03
+    tlsb = behaviours_from(run, tourtls, lambda i: [mktls], stores, "tls")
+    if tlsb:
+        names = sorted({n for b in tlsb for n in b["names"]})
+        ttf = run.harness_parallel(vh, "smtp", [{k: v for k, v in b.items() if k != "_abs"} for b in tlsb], "c03tls")
+        tres = run.validate("SmtpTrace", TRACE_CFG % dict(mbs=q(names)), ttf, max_rej=5)
+        run.cov["starttls_behaviours"] = len(tlsb)
+        tby = {b["id"]: b for b in tlsb}
+        for r in tres["rejections"]:
+            ev = r["rejected_event"]
+            run.note("STARTTLS family (Smtp.tla: StartTLS / Advertised / TlsStep): step #%d %s -> reply %s %s adv=%s upgraded=%s is not what the grown contract allows" % (
+                r["rejected_event_index"], json.dumps({k: ev.get(k) for k in ("a", "c", "verb") if k in ev}), ev.get("code"), ev.get("cls"), ev.get("adv"), ev.get("upgraded")),
+                {"behaviour": tby.get(r["trace"]), "rejection": r})
     beh += behaviours_from(run, sim, lambda i: [mk], stores, "sim")
     vb = behaviours_from(run, valid, lambda i: [lambda rng: Concretiser(rng, naming="local", policy=POLICIES[0], max_rcpt=3, mixed_verbs=False)],
                          lambda i: ["mem", "file"], "valid")
